@@ -275,7 +275,7 @@ def _pool_call(args):
     return call_impl(getattr(mod, fname), case)
 
 
-def run_impl_many(modname, fname, cases, workers=None, chunksize=None, timeout=600):
+def run_impl_many(modname, fname, cases, workers=None, chunksize=None, timeout=1800):
     """Run the real code on many cases in worker processes (isolation: a crash of the
     interpreter in the real code cannot take the verdict-writing process down)."""
     import concurrent.futures as cf
@@ -299,9 +299,9 @@ def run_impl_many(modname, fname, cases, workers=None, chunksize=None, timeout=6
                 continue
             try:
                 with cf.ProcessPoolExecutor(max_workers=1, mp_context=ctx) as ex:
-                    out[i] = ex.submit(_pool_call, a).result(timeout=120)
+                    out[i] = ex.submit(_pool_call, a).result(timeout=900)
             except cf.TimeoutError:
-                out[i] = {'raised': 'Timeout', 'msg': 'no answer within 120 s', 'where': ''}
+                out[i] = {'raised': 'Timeout', 'msg': 'no answer within 900 s', 'where': ''}
             except Exception as e2:
                 out[i] = {'raised': 'WorkerCrash', 'msg': repr(e2)[:200], 'where': ''}
     return out
